@@ -1878,8 +1878,17 @@ fn c13_case(mi: usize, m0: &Message, atoms: &[Atom], accounts: &Vec<Account>, no
             } else {
                 &b.script.answer
             });
-            let (v, _) = refm::rverdict(&req, &node.cfg, b.now_ns, &mut rp);
+            let (v, det) = refm::rverdict(&req, &node.cfg, b.now_ns, &mut rp);
             drop(rp);
+            // Next to the longest target a URI can hold the defects interact through the request's
+            // *length* (removing a parameter can bring the merged target back under the limit, and
+            // the library refuses an over-long one before it looks for a carrier): the statements
+            // do not fix the limit, the reference does not model it, the pair is not compared.
+            let v = if det.near_limit {
+                Verdict::Unspecified("merged request target near the 64 KiB limit")
+            } else {
+                v
+            };
             // each of the two requests is validated on a thread of its own (fixed hash keys), so
             // that anything a library might carry from one validation to the next on a thread
             // cannot make the pair differ: this check is about the order of the rules only
